@@ -92,6 +92,28 @@ requires plus AT MOST ONE optional field:
   is generated rarely and is REPORT-ONLY (``report_only`` is set): the ONNX checker rejects such a
   type and the statement is silent on it.
 
+**Function value info parked in the main graph** (``fn_value_info_pre10``, models of IR 8..9 with
+functions).  Before IR 10 a FunctionProto has no ``value_info`` of its own; serde documents that the types
+of a function's values are then the ``value_info`` entries of the MAIN graph that are named
+``{domain}::{function}/{value}``.  With this feature each input and each top-level node output of each
+model-local function (whose name contains no '/': the spelling could not be told apart otherwise) gets such
+an entry with probability 0.6 - full-featured or sparse like every other entry.  ``entries_for_functions``
+tells the oracle which entries of a main graph these are (canon N4 would drop them as naming nothing in the
+main graph).
+
+**Carriers of degenerate arity** (``degenerate_arity``; 35% of cases, then per site: function 0.5, graph
+0.35).  The shared generator gives every function at least one node and one output, every main graph at
+least one input, every graph at least one node and one output and every node an output.  Loops "over the
+inputs", "over the nodes", "over the outputs" are only exercised on their empty range by carriers that have
+NONE of them.  With this feature a function / graph is built full-featured (doc strings, metadata,
+attributes, value_info, annotations as usual) but with one of the shapes
+
+  * function: ``no_input`` | ``no_node`` (outputs forward inputs) | ``no_output`` | ``no_input_no_output``
+    | ``nothing`` (no input, node or output) - each with attribute parameters or without;
+  * graph: ``no_input`` (initializers and source nodes only) | ``no_node`` (outputs forward inputs /
+    initializers) | ``no_output`` | ``no_input_no_output``;
+  * and, inside such a carrier, rarely a node without outputs (and possibly without inputs).
+
 Nothing here imports ``onnx_ir``.
 """
 
@@ -131,7 +153,7 @@ _NON_ASCII = ("caf\u00e9", "cafe\u0301", "\u65e5\u672c", "\u00c5", "A\u030a")  #
 class ProtoGenC02(gp.ProtoGen):
     def __init__(self, rng: random.Random, features: Iterable[str] | None = None, *,
                  force: Iterable[str] = (), extra_force: Iterable[str] = (), p_extra: float = 0.6, p_sparse: float = 0.35,
-                 **kw) -> None:
+                 p_degenerate: float = 0.35, **kw) -> None:
         super().__init__(rng, features, force=force, **kw)
         extra_force = set(extra_force)
         for f in EXTRA_FEATURES:  # fixed order: determinism
@@ -145,6 +167,12 @@ class ProtoGenC02(gp.ProtoGen):
         if "sparse_carriers" in extra_force or draw < p_sparse:
             self.enabled.add("sparse_carriers")
         self._sparse_p = 1.0 if level < 0.3 else (0.6 if level < 0.65 else 0.3)
+        # function value info parked in the main graph (IR 8..9); carriers of degenerate arity
+        draw_fvi, draw_deg = rng.random(), rng.random()
+        if 8 <= self.ir_version < _STRUCTURED_MIN_IR and ("fn_value_info_pre10" in extra_force or draw_fvi < 0.7):
+            self.enabled.add("fn_value_info_pre10")
+        if "degenerate_arity" in extra_force or draw_deg < p_degenerate:
+            self.enabled.add("degenerate_arity")
         #: set by ``build`` when the proto contains a construct the statement is silent on
         self.report_only: str | None = None
         self.forced |= extra_force
@@ -186,7 +214,9 @@ class ProtoGenC02(gp.ProtoGen):
         saved = self._building_function
         self._building_function = True
         try:
-            if self._sparse("function"):
+            if self._degenerate("function", 0.5):
+                info = self._degenerate_function(f, domain, name, overload)
+            elif self._sparse("function"):
                 info = self._sparse_function(f, domain, name, overload)
             else:
                 info = super()._function_into(f, domain, name, overload)
@@ -263,7 +293,9 @@ class ProtoGenC02(gp.ProtoGen):
 
     # ---- one value, several entries ----------------------------------------------------------------
     def _graph_into(self, g: onnx.GraphProto, *, depth: int, outer: list[str]) -> None:
-        if self._sparse("graph"):
+        if self._degenerate("graph", 0.35):
+            self._degenerate_graph(g, depth=depth, outer=outer)
+        elif self._sparse("graph"):
             self._sparse_graph(g, depth=depth, outer=outer)
         else:
             super()._graph_into(g, depth=depth, outer=outer)
